@@ -214,3 +214,67 @@ KERNELS += [
       r"(state\.m_x\s*\+=\s*s \* dx\s*;\s*state\.m_u\s*\+=\s*s \* du\s*;\s*state\.m_v\s*\+=\s*s \* dv\s*;)",
       [(r"^.*$", "1")], [], "c04", ["C04"]),
 ]
+
+# ---- the rest of the solver (C04_Rest_Defs.v): solve_without_inequality, make_strictly_feasible / make_x0 ----------------
+_SWO = r"solver_state_t\s+solver_t::solve_without_inequality\s*\("
+_MSF = r"std::optional<vector_t>\s+linear_constrained_t::make_strictly_feasible\s*\(\)\s*const\s*\{"
+_ST = [(r"solver_status::max_iters", "0"), (r"solver_status::converged", "1"), (r"solver_status::failed", "2"),
+       (r"solver_status::unfeasible", "3"), (r"solver_status::unbounded", "4")]
+KERNELS += [
+    # `state.m_status = (valid && aprox) ? converged : (!valid ? failed : unfeasible);`
+    K("src_c04_eq_status", "src/program/solver.cpp",
+      _SWO + r".*?state\.m_status\s*=\s*(\(valid\s*&&\s*aprox\)\s*\?.*?);",
+      _ST, [("valid", "bool"), ("aprox", "bool")], "c04", ["C04"]),
+    # Eigen's isApprox (the header the library is compiled against): `|x - y|^2 <= prec^2 * min(|x|^2, |y|^2)`; instantiated by the
+    # model at the numerators over a common denominator (C04_Rest_Defs.approx_b)
+    K("src_c04_isapprox", "/usr/include/eigen3/Eigen/src/Core/Fuzzy.h",
+      r"struct\s+isApprox_selector\s*\{.*?return\s+(\(nested - otherNested\)\.cwiseAbs2\(\)\.sum\(\)\s*<=[^;]*?);",
+      [(r"\(nested - otherNested\)\.cwiseAbs2\(\)\.sum\(\)", "d2"), (r"otherNested\.cwiseAbs2\(\)\.sum\(\)", "b2"),
+       (r"nested\.cwiseAbs2\(\)\.sum\(\)", "a2"), (r"numext::mini", "std::min"), (r"prec \* prec", "pp")],
+      [("d2", "Z"), ("pp", "Z"), ("a2", "Z"), ("b2", "Z")], "c04", ["C04"]),
+    # text pins of solve_without_inequality: the arguments of the KKT solve (signs!), the split of the solution, eta = 0, the two
+    # booleans of the status
+    K("src_c04_pin_eq_solve", "src/program/solver.cpp",
+      _SWO + r".*?(program\.solve\(matrix_t::zero\(n, n\), c, -b\)\s*;\s*auto state\s*=\s*solver_state_t\{n, 0, p\}\s*;"
+             r"\s*state\.m_x\s*=\s*program\.m_lsol\.segment\(0, n\)\s*;\s*state\.m_v\s*=\s*program\.m_lsol\.segment\(n, p\)\s*;"
+             r"\s*state\.m_eta\s*=\s*0\.0\s*;\s*program\.update\(state\.m_x, state\.m_u, state\.m_v, miu, state\)\s*;)",
+      [(r"^.*$", "1")], [], "c04", ["C04"]),
+    K("src_c04_pin_eq_tests", "src/program/solver.cpp",
+      _SWO + r".*?(const auto valid\s*=\s*std::isfinite\(state\.residual\(\)\)\s*;\s*const auto aprox\s*=\s*\(program\.m_lmat \* program\.m_lsol\)"
+             r"\.isApprox\(program\.m_lvec\.vector\(\), epsilon2<scalar_t>\(\)\)\s*;)",
+      [(r"^.*$", "1")], [], "c04", ["C04"]),
+    # which path: `!program.m_ineq.valid() ? solve_without_inequality(...) : solve_with_inequality(..., make_x0(program), ...)`
+    K("src_c04_pin_dispatch", "src/program/solver.cpp",
+      r"solver_state_t\s+solver_t::solve\(const linear_program_t&\s*program,\s*const logger_t&\s*logger\)\s*const\s*\{\s*return\s+"
+      r"(!program\.m_ineq\.valid\(\)\s*\?\s*solve_without_inequality\(program_t\{program\}, logger\)\s*:\s*solve_with_inequality\(program_t\{program\}, make_x0\(program\), logger\))\s*;",
+      [(r"^.*$", "1")], [], "c04", ["C04"]),
+    # make_x0: `if (!x0) return vector_t::zero(program.m_c.size()); else return x0.value();`
+    K("src_c04_pin_make_x0", "src/program/solver.cpp",
+      r"vector_t\s+make_x0\s*\(const tprogram&\s*program\)\s*\{\s*(const auto x0\s*=\s*program\.make_strictly_feasible\(\)\s*;\s*if\s*\(!x0\)\s*\{"
+      r"\s*return\s+vector_t::zero\(program\.m_c\.size\(\)\)\s*;\s*\}\s*else\s*\{\s*return\s+x0\.value\(\)\s*;\s*\})",
+      [(r"^.*$", "1")], [], "c04", ["C04"]),
+    # make_strictly_feasible (src/program/constrained.cpp): the acceptance test of a candidate, the trial loop
+    K("src_c04_msf_accept", "src/program/constrained.cpp",
+      _MSF + r".*?\bif\s*\((\(A \* x\.vector\(\) - b\)\.maxCoeff\(\)\s*<\s*0\.0)\)\s*\{\s*ret\s*=\s*std::move\(x\)\s*;\s*return\s+true\s*;",
+      [(r"\(A \* x\.vector\(\) - b\)\.maxCoeff\(\)", "maxb"), (r"0\.0", "0")],
+      [("maxb", "Z")], "c04", ["C04"]),
+    K("src_c04_msf_trials", "src/program/constrained.cpp",
+      _MSF + r".*?static constexpr auto trials\s*=\s*(\d+)\s*;", [], [], "c04", ["C04"]),
+    K("src_c04_msf_start", "src/program/constrained.cpp",
+      _MSF + r".*?for\s*\(auto trial\s*=\s*(\d+)\s*;\s*trial\s*<\s*trials\s*;\s*trial\s*\+=\s*\d+\)", [], [], "c04", ["C04"]),
+    K("src_c04_msf_cond", "src/program/constrained.cpp",
+      _MSF + r".*?for\s*\(auto trial\s*=\s*\d+\s*;\s*(trial\s*<\s*trials)\s*;\s*trial\s*\+=\s*\d+\)", [],
+      [("trial", "Z"), ("trials", "Z")], "c04", ["C04"]),
+    K("src_c04_msf_next", "src/program/constrained.cpp",
+      _MSF + r".*?for\s*\(auto trial\s*=\s*\d+\s*;\s*trial\s*<\s*trials\s*;\s*trial\s*\+=\s*(\d+)\)", [],
+      [("trial", "Z")], "c04", ["C04"], wrap="trial + ({})"),
+    # text pins: the candidate (normal equations of the least-squares fit of the slacks to y), the short-circuit of the two trials,
+    # the start values and the updates of the two distances
+    K("src_c04_pin_msf_eval", "src/program/constrained.cpp",
+      _MSF + r".*?(const auto\s+decomp\s*=\s*\(A\.transpose\(\) \* A\)\.ldlt\(\)\s*;.*?x\.vector\(\)\s*=\s*decomp\.solve\(A\.transpose\(\) \* \(b \+ vector_t::constant\(A\.rows\(\), -y\)\)\)\s*;)",
+      [(r"^.*$", "1")], [], "c04", ["C04"]),
+    K("src_c04_pin_msf_loop", "src/program/constrained.cpp",
+      _MSF + r".*?(static constexpr auto gamma\s*=\s*0\.3\s*;.*?auto ym\s*=\s*1\.0\s*;\s*auto yM\s*=\s*1\.0 / gamma\s*;.*?if\s*\(eval\(ym\) \|\| eval\(yM\)\)\s*\{\s*break\s*;\s*\}"
+             r"\s*ym\s*\*=\s*gamma\s*;\s*yM\s*/=\s*gamma\s*;)",
+      [(r"^.*$", "1")], [], "c04", ["C04"]),
+]
